@@ -8,8 +8,10 @@ package ice
 
 import (
 	"context"
+	"runtime"
 	"sync"
 	"sync/atomic"
+	"time"
 
 	"github.com/pion/ice/v4/internal/taskloop"
 )
@@ -18,6 +20,8 @@ func init() {
 	verifRegister("verifC10Loop", verifC10Loop)
 	verifRegister("verifC10LoopTwoSubmitters", verifC10LoopTwoSubmitters)
 	verifRegister("verifC10CloseTwice", verifC10CloseTwice)
+	verifRegister("verifC10InboundNeedsLoop", verifC10InboundNeedsLoop)
+	verifRegister("verifC10RestartIsOneTask", verifC10RestartIsOneTask)
 }
 
 func verifC10Loop() { verifC10LoopN(1) }
@@ -126,5 +130,92 @@ func verifC10CloseTwice() {
 	verifAssert(ok[0] == 1 && ok[1] == 1, "every-Close-returns-after-the-callback")
 	verifAssert(closeCb.Load() == 1, "close-callback-runs-exactly-once")
 	verifAssert((res == nil) == ranIt, "submission-succeeds-iff-its-task-ran")
+	verifReach("done")
+}
+
+// Agent state is touched by loop tasks only (sequential lemma): with the loop
+// closed no task can run, so a packet arriving at a candidate's socket — STUN
+// of any class from a known remote or anyone, data from a source the
+// candidate's cache does not hold — changes nothing: nothing is sent, no
+// liveness instant moves, nothing is buffered.
+func verifC10InboundNeedsLoop() {
+	w := verifNewWorld(verifChoice(2) == 1, false, 1, 1)
+	w.pairAll()
+	a := w.a
+	a.loop = verifLoop()
+	a.loop.Close()
+	local := w.locals[0]
+	src := w.remotes[0].addrPort()
+	if verifChoice(2) == 1 {
+		src = verifSrcV4()
+	}
+	var pkt []byte
+	if verifChoice(2) == 0 {
+		verifReach("stun")
+		pkt = verifBytes(20)
+		pkt[4], pkt[5], pkt[6], pkt[7] = 0x21, 0x12, 0xA4, 0x42
+		verifAssume(verifAnd(pkt[2] == 0, pkt[3] == 0)) // header-only message of any type
+	} else {
+		verifReach("data")
+		pkt = verifBytes(3)
+		verifAssume(!verifLooksSTUN(pkt))
+	}
+	for _, r := range w.remotes {
+		verifBaseOf(r).setLastReceived(verifNow().Add(-time.Hour))
+	}
+	before := w.snap()
+	local.handleInboundPacket(pkt, src)
+	after := w.snap()
+	verifAssert(verifNothingChanged(before, after), "without-a-loop-task-agent-state-does-not-change")
+	verifAssert(a.buf.Count() == 0, "without-a-loop-task-nothing-is-delivered")
+	verifReach("done")
+}
+
+// A public operation is ONE task: whatever another submitter's task observes
+// is the state before the operation or the state after it, never a mixture.
+// Restart (new local credentials, remote credentials cleared, candidates and
+// pairs dropped, gathering state New) against a concurrent observer task, on
+// the real loop, every explored schedule.
+func verifC10RestartIsOneTask() {
+	w := verifC08New(false)
+	a := w.a
+	w.addLocal(1000, false)
+	verifAssert(a.SetRemoteCredentials(verifC08RU, verifC08RP) == nil, "remote-credentials")
+	oldU, _, _ := a.GetLocalUserCredentials()
+	type obs struct {
+		lu, ru  string
+		nLocals int
+		ok      bool
+	}
+	var o obs
+	var wg sync.WaitGroup
+	wg.Add(1)
+	go func() {
+		defer wg.Done()
+		err := a.loop.Run(a.loop, func(context.Context) {
+			n := 0
+			for _, l := range a.localCandidates {
+				n += len(l)
+			}
+			o = obs{a.localUfrag, a.remoteUfrag, n, true}
+		})
+		verifAssert(err == nil, "observer-ran")
+	}()
+	for n := verifChoice(3); n > 0; n-- {
+		runtime.Gosched()
+	}
+	verifAssert(a.Restart("c10newufrag", "c10newpasswordc10newpassword") == nil, "Restart")
+	wg.Wait()
+	verifAssert(o.ok, "observed")
+	isOld := o.lu == oldU && o.ru == verifC08RU && o.nLocals == 1
+	isNew := o.lu == "c10newufrag" && o.ru == "" && o.nLocals == 0
+	if isOld {
+		verifReach("observer-first")
+	}
+	if isNew {
+		verifReach("restart-first")
+	}
+	verifAssert(isOld || isNew, "another-task-sees-the-state-before-or-after-Restart,never-a-mixture")
+	verifAssert(a.Close() == nil, "Close")
 	verifReach("done")
 }
